@@ -49,7 +49,7 @@ func c03Alphabet() []Req {
 		noargReq(opReadDirEntry), noargReq(opReadDirEntryV2), noargReq(opReadDir),
 		mkReq(opStatFile, "/f.bin"), mkReq(opStatFile, "/nope"), mkReq(opStatFile, "/d2"),
 		mkReq(opOpenFile, "/f.bin"), mkReq(opOpenFile, "/nope"), mkReq(opOpenFile, "/d2/b.bin"), mkReq(opOpenFile, "/CLOSEFILE"),
-		rdReq(0, 100), rdReq(100, 50), rdReq(4990, 100), rdReq(6000, 10), rdReq(17, 0),
+		rdReq(0, 100), rdReq(100, 50), rdReq(4990, 100), rdReq(6000, 10), rdReq(17, 0), rdReq(1<<63, 10),
 		rdcReq(10, 20), rdcReq(4990, 100), cdReq(0, 1),
 		mkReq(opCreateFile, "/w/new.bin"), mkReq(opCreateFile, "/w/old.txt"), mkReq(opCreateFile, "/nodir/x"),
 		wrReq([]byte{1, 2, 3}), wrReq(nil), wrReq(big),
@@ -77,7 +77,7 @@ func TestC03(t *testing.T) {
 	if r.Thorough() {
 		depth = 4
 	}
-	r.Rule("all request sequences of length <= depth over a 36-request alphabet covering the 15 opcodes in success and failure form plus unknown opcodes, x writing enabled/disabled; every truncation point of every request as last request after every 1-request prefix; whole/1-byte/7-byte delivery; an upload whose storing fails (ENOSPC, EIO, partial write) at every write of a 70000-byte payload with three transfer buffer configurations; a case is distinct by (allow-write, executed request prefix, delivery)")
+	r.Rule("all request sequences of length <= depth over a 37-request alphabet covering the 15 opcodes in success and failure form plus unknown opcodes, x writing enabled/disabled; every truncation point of every request as last request after every 1-request prefix; whole/1-byte/7-byte delivery; an upload whose storing fails (ENOSPC, EIO, partial write) at every write of a 70000-byte payload with three transfer buffer configurations; a case is distinct by (allow-write, executed request prefix, delivery)")
 	r.Extra("depth", depth)
 	r.Extra("alphabet", len(alpha))
 
@@ -199,6 +199,22 @@ func TestC03(t *testing.T) {
 				seq = append(seq, truncReq(last, cut))
 				runOne(true, seq, Delivery{})
 			}
+		}
+	}
+	// (2') a WriteFile announcing more than 2^31 bytes of which only a few arrive before the client's FIN
+	for _, announced := range []uint32{1<<31 - 1, 1 << 31, 1<<32 - 1} {
+		for _, pre := range [][]Req{nil, {mkReq(opCreateFile, "/w/new.bin")}} {
+			tcase++
+			if !r.Mine(tcase) {
+				continue
+			}
+			raw := make([]byte, 16)
+			raw[0], raw[1] = byte(opWriteFile>>8), byte(opWriteFile&0xff)
+			raw[4], raw[5], raw[6], raw[7] = byte(announced>>24), byte(announced>>16), byte(announced>>8), byte(announced)
+			raw = append(raw, []byte("hello")...)
+			seq := append(append([]Req{}, pre...), Req{Op: opWriteFile, Raw: raw, Trunc: len(raw)})
+			runOne(true, seq, Delivery{})
+			runOne(false, seq, Delivery{})
 		}
 	}
 	// (3) delivery variants: depth-2 sequences with 1-byte and 7-byte delivery and 1-byte socket reads
